@@ -12,6 +12,7 @@ R23.1 per grammar type V, the canonicalisation of `{ a }` (eliminate_single_rep)
       are right-recursive: with right recursion the innermost - last - item is reduced first, so the vector is filled back to
       front; with left recursion it is filled in input order.
       A disagreement (e.g. reversing for LALR(1), or not reversing for LL(k)) delivers every repetition in reverse order.
+R23.2 no order-changing operation on vectors of symbol ids in the type deduction (members are declared in grammar order).
 """
 from .. import cfg
 from ..dataflow import operand_term, raw_operand_place, single_def
@@ -207,3 +208,37 @@ def check(ctx):
                   % (v, "right" if want == "last" else "left", "reverses" if rev.get(v) else "does not reverse"),
                   where(gsp, va[0].line))
     ctx.require_floor("R23.1", "grammar_types", len(variants), 2)
+    member_order_preserved(ctx, facts)
+
+
+ORDER_CHANGING = {"swap_remove", "swap", "reverse", "rotate_left", "rotate_right", "sort", "sort_by", "sort_by_key", "sort_unstable",
+                  "sort_unstable_by", "sort_unstable_by_key", "select_nth_unstable"}
+ORDER_TABLE = {
+    "parol|generators::symbol_table|SymbolTable::find_type_cycles|sort":
+        "sorts the ids of one detected type cycle for a canonical report; not a member / argument list",
+}
+
+
+def member_order_preserved(ctx, facts):
+    """R23.2 (added after seed C23-b; reviewed table, expected to stay at its single entry) members of the generated AST types and
+    arguments of the semantic actions are kept in grammar order: in the type deduction (grammar_type_generator, symbol_table) no
+    order-changing operation (swap_remove, swap, reverse, rotate, sort ..) is applied to a vector of symbol ids.  The user reads
+    the AST in declaration order; `swap_remove(0)` instead of `remove(0)` moves the last member to the front."""
+    from .common import fn_key
+    n = 0
+    for b in facts.in_crate(PA):
+        if not (b.module or "").startswith(("parol::generators::grammar_type_generator", "parol::generators::symbol_table")):
+            continue
+        n += 1
+        for c in b.calls():
+            nm = (c.path or "").split("::")[-1]
+            st = c.self_ty or ""
+            if nm in ORDER_CHANGING and "SymbolId" in st:
+                key = "%s|%s" % (fn_key(b, facts), nm)
+                if key in ORDER_TABLE:
+                    ctx.ok("R23.2", key, "reviewed: " + ORDER_TABLE[key], where(b, c.line), nontrivial=False)
+                else:
+                    ctx.bad("R23.2", key, "%s applies %s to a vector of symbol ids: members / arguments no longer follow the order of "
+                            "the grammar symbols, the AST read in declaration order does not mirror the input" % (short(b.path), nm),
+                            where(b, c.line))
+    ctx.require_floor("R23.2", "bodies_scanned", n, 50)
